@@ -63,11 +63,11 @@ impl Plane {
         }
         match dl.message_type.1 {
             1 => {
-                (self.track, self.grspeed) = (self.track, self.grspeed);
+                (self.track, self.grspeed) = (dl.track, dl.grspeed);
                 self.track_source = '\u{2081}';
             }
             2 => {
-                (self.track, self.grspeed) = (self.track, self.grspeed);
+                (self.track, self.grspeed) = (dl.track, dl.grspeed);
                 self.track_source = '\u{2082}';
             }
             3 | 4 => {
